@@ -278,8 +278,130 @@ def externs():
     return out
 
 
+def name_reuse():
+    """one name, several binders: the binder nearest in scope decides, whatever other functions of the file call their
+    variables and however often the shadowing construct runs (8.1, 8.2)"""
+    out = {}
+    others = {
+        "strparam": Func("label", [("n", "string")], "string", [Ret(Bin("+", V("n"), S("!")))]),
+        "strlocal": Func("label", [("q", "int")], "string", [Let("n", "string", S("loc")), Ret(Bin("+", V("n"), Call("int_to_string", V("q"))))]),
+        "boollocal": Func("label", [("q", "int")], "string", [Let("n", "bool", Bin(">", V("q"), I(0))), If(V("n"), [Ret(S("pos"))], []), Ret(S("neg"))]),
+        "arrlocal": Func("label", [("q", "int")], "string", [Let("n", "array<int>", ALit("int", [V("q"), I(2)])), Ret(Call("int_to_string", Call("array_length", V("n"))))]),
+    }
+    for ok, other in others.items():
+        call = Call("label", S("a")) if ok == "strparam" else Call("label", I(4))
+        # the later function binds the same name as an int in each binder position and uses it type-directed
+        out["reuse_%s_forvar" % ok] = prog([Println(call), Println(Call("count", I(3)))], [other,
+            Func("count", [("m", "int")], "int", [Let("acc", "int", I(0), True), For("n", I(0), V("m"), [Println(V("n")), Set("acc", Bin("+", V("acc"), V("n")))]), Ret(V("acc"))])])
+        # the same, the name used only where any type is allowed (println): nothing but the right binder gives it its type
+        out["reuse_%s_forvar_printonly" % ok] = prog([Println(call), Println(Call("count", I(3)))], [other,
+            Func("count", [("m", "int")], "int", [Let("steps", "int", I(0), True), For("n", I(0), V("m"), [Println(V("n")), Set("steps", Bin("+", V("steps"), I(1)))]), Ret(V("steps"))])])
+        out["reuse_%s_let_printonly" % ok] = prog([Println(call), Println(Call("twice", I(21)))], [other,
+            Func("twice", [("m", "int")], "int", [Let("n", "int", Bin("*", V("m"), I(2))), Println(V("n")), Ret(V("m"))])])
+        out["reuse_%s_param_printonly" % ok] = prog([Println(call), Println(Call("show", I(41)))], [other,
+            Func("show", [("n", "int")], "int", [Println(V("n")), Ret(I(1))])])
+        out["reuse_%s_let" % ok] = prog([Println(call), Println(Call("twice", I(21)))], [other,
+            Func("twice", [("m", "int")], "int", [Let("n", "int", Bin("*", V("m"), I(2))), Println(V("n")), Ret(V("n"))])])
+        out["reuse_%s_param" % ok] = prog([Println(call), Println(Call("inc", I(41)))], [other,
+            Func("inc", [("n", "int")], "int", [Println(V("n")), Ret(Bin("+", V("n"), I(1)))])])
+        out["reuse_%s_blocklet" % ok] = prog([Println(call), Println(Call("pick", I(5)))], [other,
+            Func("pick", [("m", "int")], "int", [If(Bin(">", V("m"), I(0)), [Let("n", "int", Bin("-", V("m"), I(1))), Println(V("n")), Ret(V("n"))], []), Ret(I(0))])])
+        out["reuse_%s_forin" % ok] = prog([Println(call), Println(Call("total", I(5)))], [other,
+            Func("total", [("m", "int")], "int", [Let("xs", "array<int>", ALit("int", [V("m"), I(7)])), Let("acc", "int", I(0), True),
+                                                   ForIn("n", V("xs"), [Println(V("n")), Set("acc", Bin("+", V("acc"), V("n")))]), Ret(V("acc"))])])
+        # and the other way round: the string-typed name comes later than the int one
+        out["reuse_%s_after_int" % ok] = prog([Println(Call("inc", I(41))), Println(call)], [
+            Func("inc", [("n", "int")], "int", [Println(V("n")), Ret(Bin("+", V("n"), I(1)))]), other])
+    # a loop variable that shadows a local / parameter: after the loop the outer one is back, for 0, 1, n iterations
+    for iters in (0, 1, 3):
+        out["reuse_forvar_shadows_local_%d" % iters] = prog([Let("i", "int", I(10)), For("i", I(0), I(iters), [Println(V("i"))]), Println(Bin("+", V("i"), I(1)))])
+        out["reuse_forvar_shadows_param_%d" % iters] = prog([Println(Call("f", I(10), I(iters)))],
+            [Func("f", [("i", "int"), ("k", "int")], "int", [For("i", I(0), V("k"), [Println(V("i"))]), Ret(Bin("+", V("i"), I(1)))])])
+        out["reuse_forvar_shadows_mut_local_%d" % iters] = prog([Let("i", "int", I(10), True), For("i", I(0), I(iters), [Println(V("i"))]),
+                                                              Set("i", Bin("*", V("i"), I(2))), Println(V("i"))])
+        out["reuse_forin_shadows_local_%d" % iters] = prog([Let("x", "int", I(10)), Let("xs", "array<int>", ALit("int", [I(4), I(5), I(6)][:max(iters, 1)])),
+                                                            ForIn("x", V("xs"), [Println(V("x"))]), Println(Bin("+", V("x"), I(1)))])
+        out["reuse_whilelet_shadows_local_%d" % iters] = prog([Let("x", "int", I(10)), Let("k", "int", I(0), True),
+                                                               While(Bin("<", V("k"), I(iters)), [Let("x", "int", Bin("*", V("k"), I(3))), Println(V("x")), Set("k", Bin("+", V("k"), I(1)))]),
+                                                               Println(Bin("+", V("x"), I(1)))])
+        out["reuse_nested_forvar_same_name_%d" % iters] = prog([For("i", I(0), I(2), [For("i", I(5), I(5 + iters), [Println(V("i"))]), Println(V("i"))])])
+    # sibling loops and functions reuse the variable: each starts from its own binder
+    out["reuse_sibling_loops"] = prog([For("i", I(0), I(2), [Println(V("i"))]), For("i", I(7), I(9), [Println(V("i"))]), Let("i", "int", I(50)), Println(V("i"))])
+    out["reuse_local_like_global"] = prog([Println(V("g")), Println(Call("f", I(2))), Println(V("g"))],
+        [Func("f", [("k", "int")], "int", [Let("g", "int", Bin("*", V("k"), I(7))), Ret(V("g"))])], globals_=[("g", "int", False, I(5))])
+    out["reuse_forvar_like_global"] = prog([For("g", I(0), I(2), [Println(V("g"))]), Println(V("g")), Println(Call("f"))],
+        [Func("f", [], "int", [Ret(V("g"))])], globals_=[("g", "int", False, I(5))])
+    return out
+
+
+def maps():
+    """HashMap<K,V> (SPECIFICATION 3.4.6, STDLIB): a finite map with reference semantics; a missing key reads as the
+    default of the value type"""
+    out = {}
+    MII, MSI, MSS, MIS = "HashMap<int, int>", "HashMap<string, int>", "HashMap<string, string>", "HashMap<int, string>"
+    new = Call("map_new")
+    put = lambda m, k, v: Ex(Call("map_put", V(m), k, v))
+    get = lambda m, k: Call("map_get", V(m), k)
+    has = lambda m, k: Call("map_has", V(m), k)
+    size = lambda m: Call("map_size", V(m))
+    rem = lambda m, k: Ex(Call("map_remove", V(m), k))
+    out["map_basic_int_int"] = prog([Let("m", MII, new), Println(size("m")), put("m", I(1), I(10)), put("m", I(2), I(20)), put("m", I(1), I(11)),
+                                     Println(size("m")), Println(get("m", I(1))), Println(get("m", I(2))), Println(has("m", I(2))), Println(has("m", I(3))),
+                                     Println(Call("map_length", V("m")))])
+    out["map_basic_string_keys"] = prog([Let("m", MSI, new), put("m", S("alice"), I(10)), put("m", S(""), I(7)), put("m", S("a b"), I(3)), put("m", S("alice"), I(12)),
+                                         Println(size("m")), Println(get("m", S("alice"))), Println(get("m", S(""))), Println(get("m", S("a b"))),
+                                         Println(has("m", S("Alice"))), Println(has("m", S("")))])
+    out["map_get_missing_int"] = prog([Let("m", MII, new), put("m", I(1), I(10)), Let("v", "int", get("m", I(3))), Println(Bin("+", V("v"), I(1))),
+                                       Println(get("m", I(3))), Println(size("m")), Println(has("m", I(3)))])
+    out["map_get_missing_string"] = prog([Let("m", MSS, new), put("m", S("a"), S("x")), Let("v", "string", get("m", S("zz"))), Println(Call("str_length", V("v"))),
+                                          Println(Bin("+", V("v"), S("!"))), Println(get("m", S("a"))), Println(size("m"))])
+    out["map_get_missing_int_string"] = prog([Let("m", MIS, new), put("m", I(5), S("five")), Println(Bin("+", get("m", I(6)), S("|"))), Println(get("m", I(5)))])
+    out["map_get_missing_empty_map"] = prog([Let("m", MSI, new), Println(get("m", S("k"))), Println(has("m", S("k"))), Println(size("m"))])
+    out["map_alias"] = prog([Let("m", MII, new), Let("n", MII, V("m")), put("n", I(4), I(40)), Println(size("m")), Println(get("m", I(4))),
+                             rem("m", I(4)), Println(has("n", I(4)))])
+    fill = Func("fill", [("m", MII), ("n", "int")], "int", [Let("i", "int", I(0), True), While(Bin("<", V("i"), V("n")),
+                [put("m", V("i"), Bin("*", V("i"), V("i"))), Set("i", Bin("+", V("i"), I(1)))]), Ret(size("m"))])
+    out["map_through_call"] = prog([Let("m", MII, new), Println(Call("fill", V("m"), I(5))), Println(get("m", I(4))), Println(Call("fill", V("m"), I(3))), Println(size("m"))], [fill])
+    out["map_returned_from_fn"] = prog([Let("h", MSI, Call("mk", I(3))), Println(get("h", S("n"))), Println(get("h", S("twice"))), Println(has("h", S("none"))), Println(get("h", S("none")))],
+        [Func("mk", [("n", "int")], MSI, [Let("c", MSI, new), put("c", S("n"), V("n")), put("c", S("twice"), Bin("*", V("n"), I(2))), Ret(V("c"))])])
+    out["map_remove"] = prog([Let("m", MII, new), put("m", I(1), I(10)), put("m", I(2), I(20)), put("m", I(3), I(30)), rem("m", I(2)), rem("m", I(77)),
+                              Println(size("m")), Println(has("m", I(2))), Println(get("m", I(2))), Println(get("m", I(3))), put("m", I(2), I(21)), Println(get("m", I(2))), Println(size("m"))])
+    out["map_remove_all_then_reuse"] = prog([Let("m", MII, new), Println(Call("fill", V("m"), I(20))),
+                                             For("i", I(0), I(20), [rem("m", V("i"))]), Println(size("m")), Println(has("m", I(7))),
+                                             Println(Call("fill", V("m"), I(4))), Println(get("m", I(3)))], [fill])
+    out["map_growth_200"] = prog([Let("m", MII, new), Println(Call("fill", V("m"), I(200))), Println(get("m", I(199))), Println(get("m", I(0))), Println(get("m", I(100))),
+                                  Println(has("m", I(200))), put("m", I(5), I(-1)), Println(get("m", I(5))), Println(size("m"))], [fill])
+    out["map_growth_string_keys"] = prog([Let("m", MSI, new), For("i", I(0), I(120), [put("m", Bin("+", S("k"), Call("int_to_string", Bin("*", V("i"), I(37)))), V("i"))]),
+                                          Println(size("m")), Println(get("m", S("k0"))), Println(get("m", S("k4403"))), Println(has("m", S("k1"))), Println(get("m", S("k37")))])
+    out["map_extreme_int_keys"] = prog([Let("m", MII, new), put("m", I(0), I(1)), put("m", I(-1), I(2)), put("m", I(9223372036854775807), I(3)),
+                                        put("m", Bin("-", I(-9223372036854775807), I(1)), I(4)), put("m", I(4294967296), I(5)), put("m", I(-4294967296), I(6)),
+                                        Println(size("m")), Println(get("m", I(0))), Println(get("m", I(-1))), Println(get("m", I(9223372036854775807))),
+                                        Println(get("m", Bin("-", I(-9223372036854775807), I(1)))), Println(get("m", I(4294967296))), Println(get("m", I(-4294967296))), Println(has("m", I(1)))])
+    out["map_overwrite_in_loop"] = prog([Let("m", MSI, new), For("i", I(0), I(50), [put("m", S("k"), V("i"))]), Println(size("m")), Println(get("m", S("k")))])
+    out["map_counting"] = prog([Let("m", MII, new), Let("xs", "array<int>", ALit("int", [I(3), I(1), I(3), I(2), I(3), I(1)])), Let("i", "int", I(0), True),
+                                While(Bin("<", V("i"), Call("array_length", V("xs"))), [Let("x", "int", Call("at", V("xs"), V("i"))),
+                                      put("m", V("x"), Bin("+", get("m", V("x")), I(1))), Set("i", Bin("+", V("i"), I(1)))]),
+                                Println(get("m", I(3))), Println(get("m", I(1))), Println(get("m", I(2))), Println(get("m", I(9))), Println(size("m"))])
+    out["map_two_maps"] = prog([Let("a", MII, new), Let("b", MSS, new), put("a", I(1), I(2)), put("b", S("1"), S("two")), put("a", I(2), I(3)),
+                                Println(size("a")), Println(size("b")), Println(get("b", S("1"))), Println(get("a", I(2))), Println(has("b", S("2")))])
+    out["map_local_in_match_arm"] = prog([Println(Call("pick", ULit("Shape.Circle", [("r", I(3))]))), Println(Call("pick", ULit("Shape.Circle", [("r", I(9))]))), Println(Call("pick", ULit("Shape.Empty", [])))],
+        [Func("pick", [("s", "Shape")], "int", [Match(V("s"), [
+            ("Shape.Circle", "c", [Let("hm", MII, new), put("hm", I(1), Field(V("c"), "r")), If(Bin(">", Field(V("c"), "r"), I(5)), [Ret(get("hm", I(1)))], []), Println(size("hm"))]),
+            ("Shape.Rect", "q", [Println(Field(V("q"), "w"))]), ("Shape.Empty", "e", [Println(I(0))])]), Ret(I(0))])])
+    out["map_local_in_nested_blocks"] = prog([For("i", I(0), I(3), [Let("hm", MII, new), put("hm", V("i"), I(1)), If(Bin("==", V("i"), I(1)), [Let("h2", MSI, new), put("h2", S("k"), V("i")), Println(get("h2", S("k")))], []),
+                                              Println(size("hm"))]), Println(S("end"))])
+    out["map_put_evaluation_order"] = prog([Let("m", MII, new), put("m", Call("t", I(1)), Call("t", I(2))), Println(get("m", Call("t", I(1))))])
+    out["map_keys_colliding_strings"] = prog([Let("m", MSI, new), put("m", S("Aa"), I(1)), put("m", S("BB"), I(2)), put("m", S("AaAa"), I(3)), put("m", S("BBBB"), I(4)),
+                                              put("m", S("AaBB"), I(5)), Println(get("m", S("Aa"))), Println(get("m", S("BB"))), Println(get("m", S("AaBB"))), Println(get("m", S("BBAa"))),
+                                              rem("m", S("Aa")), Println(get("m", S("BB"))), Println(has("m", S("Aa"))), Println(size("m"))])
+    return out
+
+
 def all_families():
     out = {}
-    for f in (short_circuit, eval_order, scopes, loops, data, imports, externs):
+    for f in (short_circuit, eval_order, scopes, loops, data, imports, externs, name_reuse, maps):
         out.update(f())
+    import os, re
+    if os.environ.get("VERIF_ONLY"):          # developer aid: restrict the corpus to the families whose name matches
+        out = {k: v for k, v in out.items() if re.search(os.environ["VERIF_ONLY"], "fam_" + k)}
     return out
